@@ -221,6 +221,7 @@ func (c *Cluster) opTick(s *Step) {
 		}
 	case _state.CatchingUp:
 		c.net.legs = map[string]string{"ff": s.Pull}
+		a.blocksBeforeFF = a.node.GetLastBlockIndex()
 		err := a.node.SimFastForward()
 		c.onFastForwardDone(a, err)
 	case _state.Joining:
@@ -386,6 +387,7 @@ func (c *Cluster) opFairCycle(s *Step) {
 		}
 		switch n.state() {
 		case _state.CatchingUp:
+			n.blocksBeforeFF = n.node.GetLastBlockIndex()
 			err := n.node.SimFastForward()
 			c.onFastForwardDone(n, err)
 		case _state.Joining:
